@@ -124,6 +124,19 @@ class C20(Prop):
         case = build(self, ctx, 320 if tier == "quick" else 700)
         try:
             self.run_probe(case, ("probe", "most-linked", [(w, 2, None) for w in sorted(case.led.webentities())[::9]] + [(300, 3, 1), (257, 1, 0)]))
+            # one webentity with more than 2000 nodes below its prefix, indegrees 0..9 spread over its pages
+            site = b"s:http|h:com|h:big|"
+            pages = [site + b"p:%04d|" % ((i * 7919) % 2100) for i in range(2100)]
+            srcs = [b"s:http|h:com|h:src|p:%d|" % i for i in range(10)]
+            links = []
+            for i, pg_ in enumerate(pages):
+                links += [(srcs[j], pg_) for j in range(i % 10)]
+            for op in (("pages", pages, False), ("links", links)):
+                out = case.idx.apply(op)
+                case.led.apply(op, out)
+                case.ops.append(op)
+            wbig = case.led.prefix_map[site]
+            self.run_probe(case, ("probe", "most-linked", [(wbig, 3, None), (wbig, 250, None), (wbig, 1, 1)]))
             ctx.extra["scale_probe_pages"] += len(case.led.pages)
             ctx.extra["scale_probe_webentities"] += len(case.led.webentities())
         finally:
